@@ -210,17 +210,17 @@ class _256ColorCache(Dict[Tuple[int, int, int], int]):
         colors.append((0x00, 0xFF, 0xFF))  # 14
         colors.append((0xFF, 0xFF, 0xFF))  # 15
 
-        # colors 16..232: the 6x6x6 color cube
+        # colors 16..231: the 6x6x6 color cube
         valuerange = (0x00, 0x5F, 0x87, 0xAF, 0xD7, 0xFF)
 
-        for i in range(217):
+        for i in range(216):
             r = valuerange[(i // 36) % 6]
             g = valuerange[(i // 6) % 6]
             b = valuerange[i % 6]
             colors.append((r, g, b))
 
-        # colors 233..253: grayscale
-        for i in range(1, 22):
+        # colors 232..255: grayscale
+        for i in range(24):
             v = 8 + i * 10
             colors.append((v, v, v))
 
